@@ -62,6 +62,10 @@ class Leaf:
         self.depends = None       # relative path text of "default depends"
         self.rdepends = []        # rDepends(...) entries
         self.extra_meta = b""
+        self.rep = False          # uniform array default written as a repetition [Nxv]
+        self.nodef = False        # no rDefault / rPreset at all: never saved
+        self.init = None          # contents of a new instance when there is no default
+        self.eb_leaf = None       # "enabled by" on the leaf itself (read by scan_deps only)
     def is_array(self):
         return self.kind in ("ai", "af", "at", "ao")
     def elem_kind(self):
@@ -137,6 +141,9 @@ def default_text(p, vals, opts_symbolic=False):
                     return sym
         return val_text(k, v)
     if p.is_array():
+        # a uniform default may be written as a repetition: rDefault([8x0])
+        if getattr(p, "rep", False) and len(vals) >= 2 and all(v == vals[0] for v in vals):
+            return "[%dx%s]" % (len(vals), one(vals[0]))
         return "[" + " ".join(one(v) for v in vals) + "]"
     return one(vals[0])
 
@@ -167,6 +174,8 @@ class App:
             items.append(("map %d" % num, sym))
         if p.kind == "s":
             items.append(("length", "%d" % STRCAP[p.fid]))
+        if p.eb_leaf is not None:
+            items.append(("enabled by", p.eb_leaf))
         if p.depends is not None:
             items.append(("default depends", p.depends))
         for sv in sorted(p.presets):
@@ -188,6 +197,8 @@ class App:
         return meta_block(items)
 
     def tree(self):
+        if getattr(self, "static", False):
+            return "static"
         out = []
         for lv in self.levels:
             items = []
@@ -203,7 +214,7 @@ class App:
             for p in lv.ports:
                 if isinstance(p, Leaf):
                     items.append("p,%s,%s,%s" % (p.fid, hx(p.portname()), hx(self.leaf_meta(p))))
-                    if p.default is not None or p.presets:
+                    if p.default is not None or p.presets or p.nodef:
                         items.append("d,%s,%s" % (p.fid, ":".join(field_text(p, v) for v in self.initial(lv, p))))
                 else:
                     items.append("p,%s,%s,%s" % (p.fid, hx(p.portname()), hx(self.child_meta(p))))
@@ -235,6 +246,8 @@ class App:
 
     def initial(self, lv, p):
         """initial field contents (backing arrays have NA elements)"""
+        if p.nodef:
+            return pad(p, p.init)
         if p.depends is not None:
             sel = self.selector_leaf(lv)
             sv = sel.default[0]
@@ -270,6 +283,7 @@ class FlatPort:
         self.hard = []        # flat indices of toggles of pointer sub-trees above
         self.soft = []        # flat indices of "enabled by" toggles of embedded sub-trees above
         self.dirs = []        # [(directory path without trailing '/', Child)] from the root down
+        self.rdeps = []       # flat indices named by rDepends / a leaf's own "enabled by"
 
 def sv(kind, v):
     """scalar text of the case-line value syntax"""
@@ -304,6 +318,8 @@ def flatten(app):
         for fp in mine:
             if fp.leaf.depends is not None and lv.selector in byfid:
                 fp.sel = byfid[lv.selector]
+            fp.rdeps = sorted({byname[x] for x in list(fp.leaf.rdepends) + ([fp.leaf.eb_leaf] if fp.leaf.eb_leaf else [])
+                               if x in byname})
         # rSelf(..., rEnabledBy(x)): everything in this table except x itself
         if lv.self_enabled_by is not None and lv.self_enabled_by in byname:
             g = byname[lv.self_enabled_by]
@@ -365,10 +381,11 @@ def flat_text(flat):
         out.append(",".join([
             hx(fp.path), elem_model_kind(p), "1" if p.is_array() else "0", "%d" % p.n,
             "-" if p.min is None else "%d" % p.min, "-" if p.max is None else "%d" % p.max,
-            opts, value_text(p, p.default),
+            opts, value_text(p, p.default) if not p.nodef else "-",
             "-" if fp.sel is None else "%d" % fp.sel, table,
             ".".join("%d" % g for g in fp.hard) if fp.hard else "-",
-            ".".join("%d" % g for g in fp.soft) if fp.soft else "-"]))
+            ".".join("%d" % g for g in fp.soft) if fp.soft else "-",
+            "1" if p.nodef else "0", value_text(p, p.init) if p.nodef else "-"]))
     return ";".join(out) if out else "-"
 
 def apro_text(app, flat, dirs):
@@ -378,7 +395,7 @@ def apro_text(app, flat, dirs):
     for fp in flat:
         p = fp.leaf
         dep = "".join(d + "," for d in p.rdepends) if p.rdepends else None
-        out.append("%s,%s,%s,%s" % (hx(fp.path), "n", ov(dep), ov(p.depends)))
+        out.append("%s,%s,%s,%s" % (hx(fp.path), ov(p.eb_leaf), ov(dep), ov(p.depends)))
     for d, c in dirs.items():
         dep = "".join(x + "," for x in c.rdepends) if c.rdepends else None
         for path in (d, d + "/"):
@@ -418,6 +435,8 @@ class Ref:
 
     def initial(self, i):
         fp = self.flat[i]
+        if fp.leaf.nodef:
+            return list(fp.leaf.init)
         if fp.sel is None:
             return list(fp.leaf.default)
         return self.default_under(i, self.flat[fp.sel].leaf.default[0])
@@ -610,6 +629,7 @@ def gen_level(rng, T, app, opts):
         k = p.kind
         if p.is_array():
             p.n = rng.choice([1, 2, 3, 4, 8])
+            p.rep = p.n >= 2 and rng.random() < 0.5
         ek = p.elem_kind()
         if ek == "c":
             p.min, p.max, p.mintext, p.maxtext = 0, 127, "0", "127"      # what rParam itself declares
@@ -674,11 +694,17 @@ def gen_level(rng, T, app, opts):
         elif ek == "s":
             cap = STRCAP[fid]
             p.default = [bytes(rng.choice(b"abcxyz 12") for _ in range(rng.randint(0, min(cap - 1, 6))))]
+        if p.rep:
+            p.default = [p.default[0]] * p.n
+        if fid not in (lv.selector, en) and rng.random() < opts.get("p_nodef", 0.08):
+            p.nodef = True            # a parameter without rDefault
+            p.init = p.default
+            p.default = None
         leaves.append(p)
     # dependents of the selector
     if lv.selector:
         sel = [p for p in leaves if p.fid == lv.selector][0]
-        cands = [p for p in leaves if p.fid != lv.selector and p.fid != en and p.kind != "s"]
+        cands = [p for p in leaves if p.fid != lv.selector and p.fid != en and p.kind != "s" and not p.nodef]
         rng.shuffle(cands)
         keys = [sel.default[0] + d for d in range(0, rng.choice([1, 2, 3]))]
         if rng.random() < 0.5:
@@ -687,7 +713,30 @@ def gen_level(rng, T, app, opts):
             p.depends = sel.name
             for kk in keys:
                 q = gen_value_in_range(rng, p)
+                if p.rep:
+                    q = [q[0]] * p.n
                 p.presets[kk] = q
+    # declared dependencies between the leaves of this table (rDepends lists,
+    # several keys naming the same port, chains and diamonds): leaf k may name
+    # leaves in front of it (acyclic by construction)
+    if rng.random() < opts.get("p_rdep", 0.0):
+        order = list(leaves)
+        rng.shuffle(order)
+        order.sort(key=lambda q: 0 if q.fid == lv.selector else 1)      # "default depends" edges point at the selector
+        for k in range(1, len(order)):
+            p = order[k]
+            if rng.random() < 0.6:
+                m = rng.choice([1, 1, 2, 2, 3, 4])
+                p.rdepends = [q.name for q in rng.sample(order[:k], min(m, k))]
+                if rng.random() < 0.3:
+                    p.rdepends.append(rng.choice(p.rdepends))          # the same port twice
+            if p.depends is not None and rng.random() < 0.5 and p.depends in [q.name for q in order[:k]]:
+                p.rdepends = p.rdepends + [p.depends]                   # rDepends and rDefaultDepends name one port
+            if rng.random() < 0.25 and p.fid != lv.selector:
+                tg = p.rdepends[0] if (p.rdepends and rng.random() < 0.7) else None
+                if tg is None:
+                    tg = rng.choice(order[:k]).name
+                p.eb_leaf = tg                                          # "enabled by" on a leaf (scan_deps reads it)
     lv.ports = list(leaves)
     # children
     if T < LAST:
@@ -896,6 +945,8 @@ def parse_flat(text):
         fp.sel = None if f[8] == "-" else int(f[8])
         fp.hard = [] if f[10] == "-" else [int(x) for x in f[10].split(".")]
         fp.soft = [] if f[11] == "-" else [int(x) for x in f[11].split(".")]
+        p.nodef = len(f) > 12 and f[12] == "1"
+        p.init = parse_value_text(f[13]) if p.nodef else None
         flat.append(fp)
     return flat
 
@@ -937,6 +988,8 @@ def expected_lines_of_state(ref, st):
             continue
         if not all(st[g] is not None and bool(st[g][0]) for g in fp.hard + fp.soft):
             continue
+        if fp.leaf.nodef:
+            continue              # a parameter without any default is not saved
         dfl = ref.default_of(i, full)
         l = expected_line(fp.leaf, fp.path, st[i], dfl)
         if l is not None:
@@ -972,10 +1025,93 @@ def states_equal(ref, sa, sb):
         # below a switched-off "enabled by" toggle the walk does not go: not part of the saved state
         if not all(sa[g] is not None and bool(sa[g][0]) for g in fp.soft):
             continue
+        if fp.leaf.nodef and sa[i] is not None and sb[i] is not None:
+            continue              # not saved by design (no default to compare with)
         if (sa[i] is None) != (sb[i] is None):
             return "%s exists in one instance only" % fp.path
         if sa[i] is None:
             continue
         if len(sa[i]) != len(sb[i]) or not all(feq(fp.leaf.kind, a, b) for a, b in zip(sa[i], sb[i])):
             return "%s is %r in the saved instance and %r after loading" % (fp.path, sa[i], sb[i])
+    return None
+
+# ---------------------------------------------------------------------------
+# the macro-made application of harness/h_C12_app.h (tree description "static"),
+# described by hand: what the port-sugar macros are documented to produce
+def _sleaf(kind, name, default, n=1, **kw):
+    fid = {"i": "i0", "o": "o0", "f": "f0", "t": "t0", "ai": "ai"}[kind]
+    p = Leaf(fid, name, n)
+    p.default = list(default)
+    for k, v in kw.items():
+        setattr(p, k, v)
+    return p
+
+def static_app():
+    app = App()
+    app.static = True
+    l0, l1 = app.levels[0], app.levels[1]
+    opts = [(i, s) for i, s in enumerate(["oa", "ob", "oc", "od", "oe", "og", "oh", "oi", "oj", "ok"])]
+    l0.ports = [
+        _sleaf("i", "m0", [10]),
+        _sleaf("i", "m1", [11], rdepends=["m0"]),
+        _sleaf("i", "m2", [12], rdepends=["m0", "m1"]),
+        _sleaf("i", "m3", [13], rdepends=["m2", "m1", "m0"]),
+        _sleaf("i", "m4", [14], rdepends=["m0", "m1", "m2", "m3"], min=-100, max=100),
+        _sleaf("i", "m5", [15], rdepends=["m4", "m3", "m2", "m1", "m0"]),
+        _sleaf("i", "m6", [16], rdepends=["m5", "m4", "m3", "m2", "m1", "m0"]),
+        _sleaf("o", "mo", [0], opts=opts),
+        _sleaf("i", "mp", [29], depends="mo", presets={0: [20], 1: [21], 2: [22], 3: [23], 4: [24]}),
+        _sleaf("i", "mq", [30], depends="mo", presets={2: [32], 3: [33], 4: [34], 5: [35]},
+               rdepends=["mp", "m0", "m1", "m6"]),
+        _sleaf("f", "mf", [f2b(0.5)], min=f2b(-1.5), max=f2b(2.5)),
+        _sleaf("t", "mt", [0]),
+        _sleaf("ai", "ma", [3, 3, 3, 3], n=4),
+    ]
+    l0.selector = "o0"
+    c = Child("sub", "ms")
+    c.enabled_by = "mt"
+    l0.ports.append(c)
+    l1.ports = [_sleaf("i", "sa", [1]), _sleaf("i", "sb", [2], rdepends=["sa"])]
+    return app
+
+def static_macro_ports():
+    """(name, metadata block) of every port of the macro-made tables, in table order"""
+    P, D = ("parameter", None), ("documentation", "d")
+    def dep(*xs):
+        return ("depends", "".join(x + "," for x in xs))
+    out = [
+        ("m0::i", [P, ("default", "10"), D]),
+        ("m1::i", [P, ("default", "11"), dep("m0"), D]),
+        ("m2::i", [P, dep("m0", "m1"), ("default", "12"), D]),
+        ("m3::i", [P, ("default", "13"), dep("m2", "m1", "m0"), D]),
+        ("m4::i", [P, ("min", "-100"), ("max", "100"), ("scale", "linear"), ("default", "14"), dep("m0", "m1", "m2", "m3"), D]),
+        ("m5::i", [P, ("default", "15"), dep("m4", "m3", "m2", "m1", "m0"), D]),
+        ("m6::i", [P, ("default", "16"), dep("m5", "m4", "m3", "m2", "m1", "m0"), D]),
+        ("mo::i:c:S", [P, ("enumerated", None)] +
+         [("map %d" % i, s) for i, s in enumerate(["oa", "ob", "oc", "od", "oe", "og", "oh", "oi", "oj", "ok"])] +
+         [("default", "oa"), D]),
+        ("mp::i", [P, ("default depends", "mo")] + [("default %d" % i, "%d" % (20 + i)) for i in range(5)] + [("default", "29"), D]),
+        ("mq::i", [P, ("default depends", "mo")] + [("default %d" % i, "%d" % (30 + i)) for i in range(2, 6)] +
+         [("default", "30"), dep("mp", "m0", "m1", "m6"), D]),
+        ("mf::f", [P, ("min", "-1.5"), ("max", "2.5"), ("scale", "linear"), ("default", "0.5"), D]),
+        ("mt::T:F", [P, ("default", "false"), D]),
+        ("ma#4::i", [P, ("default", "[4x3]"), D]),
+        ("ms/", [("enabled by", "mt"), D]),
+        ("ms:", [("internal", None), ("documentation", "get obj pointer")]),
+        ("sa::i", [P, ("default", "1"), D]),
+        ("sb::i", [P, ("default", "2"), dep("sa"), D]),
+    ]
+    return [(n, meta_block(items)) for n, items in out]
+
+def macro_cases():
+    return ["macro %d %s %s" % (k, hx(n), hx(m)) for k, (n, m) in enumerate(static_macro_ports())]
+
+def macro_check(case, impl):
+    f = case.split(" ")
+    want = "name=%s meta=%s" % (f[2], f[3])
+    if impl != want:
+        kv = kv_fields(impl)
+        got = bytes.fromhex(kv.get("meta", "")) if kv.get("meta", "-") != "-" else b""
+        return "macros: port %s: the macros produced %r, their documentation calls for %r" % (
+            bytes.fromhex(f[2]).decode("latin-1"), got, bytes.fromhex(f[3]))
     return None
